@@ -173,6 +173,30 @@ def run(ck):
             open(p, "w").write(text)
             jobs.append((p, [], (["-std=gnu2x"] if lang == "c" else ["-x", "c++", "-std=c++20"]), "sweep-%s-%s-%s" % (lang, cn, re.sub(r"\W+", "_", e)), text))
 
+        # annotation sweep: every rustbindgen annotation, with well- and ill-formed values, attached to every kind of declaration
+        anns = [("replaces", v) for v in ("Target", "TargetE", "TargetT", "TargetTmpl", "Missing", "", "D0", "ns::Target", "Target<int>")] + \
+               [(a, None) for a in ("hide", "opaque", "nocopy", "nodebug", "nodefault", "mustusetype", "constant")] + \
+               [("private", v) for v in ("true", "false", "", "maybe")] + [("accessor", v) for v in ("unsafe", "immutable", "false", "bogus", "")] + \
+               [("derive", v) for v in ("Clone", "Debug,Clone", "", "((", "1+")] + [("attribute", v) for v in ("#[allow(dead_code)]", "allow(dead_code)", "((", "", "#[")]
+        decls = [("struct", "%s struct D0 { int a; };"), ("enum", "%s enum D0 { D0_A, D0_B };"), ("typedef", "%s typedef int D0;"), ("typedef-struct", "%s typedef struct Target D0;"),
+                 ("var-builtin", "%s extern int D0;"), ("const-var", "%s static const double D0 = 1.5;"), ("var-struct", "%s extern struct Target D0;"), ("var-ptr", "%s extern struct Target *D0;"),
+                 ("function", "%s int D0(int);"), ("field", "struct H0 { %s int a; int b; };"), ("bitfield", "struct H0 { %s int a : 3; int b : 5; };"), ("variant", "enum H0 { %s H0_A, H0_B };"),
+                 ("union", "%s union D0 { int a; float f; };"), ("static-member", "struct H0 { %s static int D0; };"), ("static-const-member", "struct H0 { %s static const int D0 = 3; };"),
+                 ("alias-template", "%s template<class T> using D0 = T*;"), ("namespace", "%s namespace D0 { int q; }"), ("method", "struct H0 { %s int D0(); };"),
+                 ("class-template", "%s template<class T> struct D0 { T t; };"), ("ctor", "struct H0 { %s H0(int); };"), ("inner-struct", "struct H0 { %s struct D0 { int z; } m; };")]
+        prelude_ann = "struct Target { int t; };\nenum TargetE { TE_A };\ntypedef int TargetT;\ntemplate<class T> struct TargetTmpl { T x; };\nnamespace ns { struct Target { char c; }; }\n"
+        ann_jobs = []
+        for an, av in anns:
+            tag = "<div rustbindgen %s%s></div>" % (an, "" if av is None else '="%s"' % av)
+            for dk, dt in decls:
+                ann_jobs.append(("ann-%s-%s-%s" % (an, re.sub(r"\W+", "_", av or "none"), dk), prelude_ann + dt.replace("%s", "/** %s */" % tag) + "\nstruct User0 { Target t; TargetT k; };\n"))
+        if quick:
+            ann_jobs = [x for x in ann_jobs if x[0].startswith("ann-replaces")] + r.sample([x for x in ann_jobs if not x[0].startswith("ann-replaces")], 150)
+        for k, (origin, text) in enumerate(ann_jobs):
+            p = os.path.join(tmp, "an%d.hpp" % k)
+            open(p, "w").write(text)
+            jobs.append((p, [], ["-x", "c++", "-std=c++17"], origin, text))
+
         def one(j):
             p, fl, cl, origin, text = j
             lang = cl
@@ -192,8 +216,11 @@ def run(ck):
                 where = re.search(r"panicked at ([^\n:]+:\d+)", err)
                 msg = re.search(r"panicked at [^\n]*\n([^\n]*)", err)
                 # keyed by file and message, not by line: an unrelated edit above the site must not turn a known panic into a new one
-                key = ((re.sub(r"^/rustc/[0-9a-f]+/", "", re.sub(r":\d+$", "", where.group(1).replace(REPO + "/", ""))) + ":" + re.sub(r"[^A-Za-z]+", "-", (msg.group(1) if msg else "").split(":")[0])[:40].strip("-")) if where
-                       else ("-".join(origin.split("-")[:2]) if origin.startswith("deep-") else "mutant"))
+                mtxt = (msg.group(1) if msg else "")
+                if "is not a valid Ident" in mtxt:
+                    mtxt = "is not a valid Ident"      # (the message quotes the offending text: keep the class independent of the input)
+                key = ((re.sub(r"^/rustc/[0-9a-f]+/", "", re.sub(r":\d+$", "", where.group(1).replace(REPO + "/", ""))) + ":" + re.sub(r"[^A-Za-z]+", "-", mtxt.split(":")[0])[:40].strip("-")) if where
+                       else ("-".join(origin.split("-")[:2]) if origin.startswith("deep-") else ("annotation-" + origin.split("-")[1]) if origin.startswith("ann-") else "mutant"))
                 ck.violation("C12-%s:%s" % (cls, key), "generation ends with a %s instead of bindings or an error value (%s)" % (cls, (msg.group(1)[:100] if msg else "")), data)
             elif accepted and cls == "error":
                 ck.violation("C12-accepted-but-error", "clang accepts the header but bindgen returns an error", data)
